@@ -215,6 +215,13 @@ def run_one(seed, preset=None, tier="quick", want_case=False):
                                   "below it" % (list(path), val)))
                 return
             if path in anc:
+                if expected is None and actual is not None:
+                    # the corruption replaced a value whose failure nulled this position in the
+                    # reference (e.g. a scalar that serialised to null): only conformance is checked
+                    ty0 = types.get(path)
+                    if ty0 is not None and not cf.value(actual, ty0, plan.field_nodes.get(_strip(path), []), path):
+                        viol.append(V("nonconforming_data", "position %r above a corrupted position: %s" % (list(path), cf.why), kind="value"))
+                    return
                 if actual is None and expected is not None:
                     if not explained(path):
                         viol.append(V("unexplained_null", "position %r is null (reference: non-null) and no error has a path at or below it" % (list(path),)))
